@@ -10,6 +10,7 @@ import (
 
 	"go.arcalot.io/log/v2"
 	"go.flow.arcalot.io/engine/internal/step"
+	"go.flow.arcalot.io/engine/internal/verifhook"
 	"go.flow.arcalot.io/engine/workflow"
 	"go.flow.arcalot.io/pluginsdk/schema"
 )
@@ -449,6 +450,7 @@ func (r *runnableStep) Start(_ map[string]any, runID string, stageChangeHandler 
 		stageChangeHandler: stageChangeHandler,
 		logger:             r.logger,
 	}
+	verifhook.Emit("SStart", "obj", rs, "step", runID, "kind", "foreach")
 	go rs.run()
 	return rs, nil
 }
@@ -481,6 +483,7 @@ func (r *runningStep) ProvideStageInput(stage string, input map[string]any) erro
 	defer r.lock.Unlock()
 	if r.closed.Load() {
 		r.logger.Debugf("exiting foreach ProvideStageInput due to step being closed")
+		verifhook.Emit("SProv", "obj", r, "stage", stage, "ok", false, "closed", true)
 		return nil
 	}
 	switch stage {
@@ -497,6 +500,7 @@ func (r *runningStep) ProvideStageInput(stage string, input map[string]any) erro
 			subworkflowInputs[i] = item
 		}
 		if r.executionInputAvailable {
+			verifhook.Emit("SProv", "obj", r, "stage", "execute", "ok", false)
 			return fmt.Errorf("input for execute workflow provided twice for run/step %s", r.runID)
 		}
 		parallelismInput := input["parallelism"]
@@ -520,6 +524,7 @@ func (r *runningStep) ProvideStageInput(stage string, input map[string]any) erro
 			data:        subworkflowInputs,
 			parallelism: parallelism,
 		}
+		verifhook.Emit("SProv", "obj", r, "stage", "execute", "ok", true, "state", string(r.currentState), "n", len(subworkflowInputs), "par", parallelism)
 		return nil
 	case string(StageIDOutputs):
 		return nil
@@ -537,6 +542,7 @@ func (r *runningStep) ProvideStageInput(stage string, input map[string]any) erro
 func (r *runningStep) provideEnablingInput(input map[string]any) error {
 	// Note: The calling function must have the step mutex locked
 	if r.enabledInputAvailable {
+		verifhook.Emit("SProv", "obj", r, "stage", "enabling", "ok", false)
 		return fmt.Errorf("enabled input provided more than once")
 	}
 	// Check to make sure it's enabled.
@@ -544,6 +550,7 @@ func (r *runningStep) provideEnablingInput(input map[string]any) error {
 	enabled := input["enabled"] == nil || input["enabled"] == true
 	r.enabledInputAvailable = true
 	r.enabledInput <- enabled
+	verifhook.Emit("SProv", "obj", r, "stage", "enabling", "ok", true, "val", enabled, "state", string(r.currentState))
 	return nil
 }
 
@@ -556,16 +563,20 @@ func (r *runningStep) CurrentStage() string {
 func (r *runningStep) State() step.RunningStepState {
 	r.lock.Lock()
 	defer r.lock.Unlock()
+	verifhook.Emit("SState", "obj", r, "state", string(r.currentState), "stage", string(r.currentStage))
 	return r.currentState
 }
 
 func (r *runningStep) Close() error {
 	closedAlready := r.closed.Swap(true)
+	verifhook.Emit("SClose", "obj", r, "kind", "close", "was", closedAlready)
+	defer verifhook.Emit("SCloseRet", "obj", r, "kind", "close")
 	if closedAlready {
 		r.wg.Wait()
 		return nil
 	}
 	r.cancel()
+	verifhook.Emit("SCtx", "obj", r, "why", "close")
 	r.wg.Wait()
 	r.logger.Debugf("Closing inputData channel in foreach step provider")
 	close(r.executeInput)
@@ -581,6 +592,7 @@ func (r *runningStep) run() {
 	r.wg.Add(1)
 	defer func() {
 		r.logger.Debugf("foreach run function done")
+		verifhook.Emit("SExit", "obj", r)
 		r.wg.Done()
 	}()
 	waitingForInput := false
@@ -602,6 +614,7 @@ func (r *runningStep) run() {
 	} else {
 		newState = step.RunningStepStateRunning
 	}
+	verifhook.Emit("SSlot", "obj", r, "slot", "execute", "op", "peek", "avail", r.executionInputAvailable)
 	r.lock.Unlock()
 	enabledOutput := any(map[any]any{"enabled": true})
 	// End Enabling with resolved output, and start starting
@@ -629,9 +642,11 @@ func (r *runningStep) run() {
 // - bool: True if the step was disabled due to context done.
 func (r *runningStep) enableStage() (bool, bool) {
 	// Enabling is the first stage, so do not transition out of it.
+	verifhook.Gate("foreach.enable.beforeRecv", "obj", r)
 	var enabled bool
 	select {
 	case enabled = <-r.enabledInput:
+		verifhook.Emit("SSlot", "obj", r, "slot", "enabling", "op", "take", "val", enabled)
 	case <-r.ctx.Done():
 		return false, true
 	}
@@ -705,6 +720,7 @@ func (r *runningStep) transitionFromFailedStage(newStage StageID, state step.Run
 	// Don't forget to update this, or else it will behave very oddly.
 	// First running, then finished. You can't skip states.
 	r.currentState = state
+	verifhook.Emit("SSet", "obj", r, "stage", string(r.currentStage), "state", string(r.currentState))
 	r.lock.Unlock()
 	r.stageChangeHandler.OnStepStageFailure(
 		r,
@@ -729,6 +745,7 @@ func (r *runningStep) transitionStageWithOutput(
 	// Don't forget to update this, or else it will behave very oddly.
 	// First running, then finished. You can't skip states.
 	r.currentState = state
+	verifhook.Emit("SSet", "obj", r, "stage", string(r.currentStage), "state", string(r.currentState))
 	r.lock.Unlock()
 	r.stageChangeHandler.OnStageChange(
 		r,
@@ -746,6 +763,7 @@ func (r *runningStep) completeStep(currentStage StageID, state step.RunningStepS
 	previousStage := string(r.currentStage)
 	r.currentStage = currentStage
 	r.currentState = state
+	verifhook.Emit("SSet", "obj", r, "stage", string(r.currentStage), "state", string(r.currentState))
 	r.lock.Unlock()
 
 	r.stageChangeHandler.OnStepComplete(
@@ -776,8 +794,10 @@ func (r *runningStep) markStageFailures(firstStage StageID, err error) {
 }
 
 func (r *runningStep) runOnInput() {
+	verifhook.Gate("foreach.execute.beforeRecv", "obj", r)
 	select {
 	case loopData, ok := <-r.executeInput:
+		verifhook.Emit("SSlot", "obj", r, "slot", "execute", "op", "take", "ok", ok)
 		if !ok {
 			r.logger.Debugf("aborted waiting for result in foreach")
 			return
@@ -785,6 +805,7 @@ func (r *runningStep) runOnInput() {
 		r.processInput(loopData)
 	case <-r.ctx.Done():
 		r.logger.Debugf("context done")
+		verifhook.Emit("SSlot", "obj", r, "slot", "execute", "op", "ctxdone")
 		return
 	}
 }
@@ -826,6 +847,8 @@ func (r *runningStep) processInput(input executeInput) {
 		}
 	}
 	currentStage := r.currentStage
+	verifhook.Emit("FCollect", "obj", r, "nerr", len(errors), "nout", len(outputs))
+	verifhook.Emit("SSet", "obj", r, "stage", string(r.currentStage), "state", string(r.currentState))
 	r.lock.Unlock()
 	r.stageChangeHandler.OnStageChange(
 		r,
@@ -845,6 +868,7 @@ func (r *runningStep) processInput(input executeInput) {
 	r.lock.Lock()
 	r.currentState = step.RunningStepStateFinished
 	previousStage = string(r.currentStage)
+	verifhook.Emit("SSet", "obj", r, "stage", string(r.currentStage), "state", string(r.currentState))
 	r.lock.Unlock()
 	r.stageChangeHandler.OnStepComplete(r, previousStage, &outputID, &outputData, &r.wg)
 }
@@ -863,6 +887,7 @@ func (r *runningStep) executeSubWorkflows(input executeInput) ([]any, map[int]st
 			defer func() {
 				select {
 				case <-sem:
+					verifhook.Emit("FItem", "obj", r, "i", i, "op", "release")
 				case <-r.ctx.Done(): // Must not deadlock if closed early.
 				}
 				wg.Done()
@@ -870,13 +895,16 @@ func (r *runningStep) executeSubWorkflows(input executeInput) ([]any, map[int]st
 			r.logger.Debugf("Queuing item %d...", i)
 			select {
 			case sem <- struct{}{}:
+				verifhook.Emit("FItem", "obj", r, "i", i, "op", "acquire")
 			case <-r.ctx.Done():
 				r.logger.Debugf("Aborting item %d execution.", i)
+				verifhook.Emit("FItem", "obj", r, "i", i, "op", "abort")
 				return
 			}
 
 			r.logger.Debugf("Executing item %d...", i)
 			// Ignore the output ID here because it can only be "success"
+			verifhook.Gate("foreach.item.beforeExecute", "obj", r, "i", i)
 			_, outputData, err := r.workflow.Execute(r.ctx, input)
 			r.lock.Lock()
 			if err != nil {
@@ -884,6 +912,7 @@ func (r *runningStep) executeSubWorkflows(input executeInput) ([]any, map[int]st
 			} else {
 				itemOutputs[i] = outputData
 			}
+			verifhook.Emit("FItem", "obj", r, "i", i, "op", "result", "err", err)
 			r.lock.Unlock()
 			r.logger.Debugf("Item %d complete.", i)
 		}()
